@@ -58,6 +58,7 @@ type Graph struct {
 	Nodes []*Node `json:"nodes"`
 	Flows []*Flow `json:"flows"`
 	Executable bool `json:"executable"`
+	DataObjects []string `json:"dataObjects,omitempty"`
 	nodeBy map[string]*Node
 	flowBy map[string]*Flow
 }
@@ -175,14 +176,14 @@ func condText(c *Cond) (lang string, text string) {
 		return lang, fmt.Sprintf("%v", *c.Const)
 	case c.LtVar != "":
 		if lang == xpathLang {
-			return lang, fmt.Sprintf("/doc/%s &lt; %d", c.LtVar, c.Lt)
+			return lang, fmt.Sprintf("//%s &lt; %d", c.LtVar, c.Lt)
 		}
 		return lang, fmt.Sprintf("%s &lt; %d", c.LtVar, c.Lt)
 	case c.Obj != "":
 		return exprLang, fmt.Sprintf("getDataObject(&#34;%s&#34;) == %v", c.Obj, c.Want)
 	default:
 		if lang == xpathLang {
-			return lang, fmt.Sprintf("/doc/%s = '%v'", c.Var, c.Want)
+			return lang, fmt.Sprintf("//%s = '%v'", c.Var, c.Want)
 		}
 		return lang, fmt.Sprintf("%s == %v", c.Var, c.Want)
 	}
@@ -282,6 +283,9 @@ func (g *Graph) emitBody(b *strings.Builder, ind string) {
 			n.Sub.emitBody(b, ind+"  ")
 		}
 		fmt.Fprintf(b, "%s</bpmn:%s>\n", ind, tag)
+	}
+	for _, do := range g.DataObjects {
+		fmt.Fprintf(b, "%s<bpmn:dataObject id=\"%s\" name=\"%s\"/>\n", ind, do, do)
 	}
 	for _, f := range g.Flows {
 		if f.Cond == nil {
